@@ -20,7 +20,8 @@ Oracle (independent of the model, on what the implementation did):
   * every processed meta tile is an aligned, valid tile of a selected level and intersects the coverage;
   * every meta tile of a selected level whose chain of ancestors' meta tiles intersects the coverage and whose centre
     lies more than 1/10 pixel inside the traversed rectangles is processed;
-  * the walker does not raise;  the progress file holds exactly the reported identifier.
+  * the walker does not raise (finding C11-sliver, repaired: rectangles thinner than 2/10 pixel are generated on purpose);
+    the progress file holds exactly the reported identifier.
 """
 import io
 import json
@@ -37,8 +38,8 @@ TECHNIQUE = ('Coq proof (induction over arbitrary walk trees / lexicographic pro
 LEVEL_TEXT = ('Theorems over the Gallina model of TileWalker._walk / SeedProgress for every walk tree, every old progress '
               'identifier, every crash index and every persisted report (resume_covers, also for chains of interruptions), '
               'strict-order properties of can_skip, soundness of the geometric walk for every grid, meta size, level list '
-              'and monotone coverage predicate (walk_sound_partial), a refutation witness for "the walk never raises" '
-              '(finding C11-sliver); completeness of the selection (walk_complete_*) is NOT proved, only checked by the '
+              'and monotone coverage predicate (walk_sound_partial), walk_completes: no _walk call of a task on a well-formed '
+              'grid with sorted valid levels raises (holds since the repair of finding C11-sliver); completeness of the selection (walk_complete_*) is NOT proved, only checked by the '
               'oracle; tied to mapproxy/seed/seeder.py, seed/util.py and grid.py MetaGrid by '
               'running the real walker on generated tasks and comparing event traces with the model evaluated by vm_compute.')
 LEVEL_NOTE = ('Trusted: Coq kernel, hand-written model Seed.v / Grid.v, the correspondence harness. Not verified: IEEE rounding '
@@ -55,7 +56,6 @@ TRUSTED = ['model Seed.v hand-written from mapproxy/seed/seeder.py, seed/util.py
            'crash model: an interruption happens between two observable events (pool.process / log_progress calls); the progress '
            'file is written atomically (write_atomic) by the report that persists it']
 ASSUMPTIONS = ['coverage predicate monotone (CONTAINS for a rectangle implies not NONE for every rectangle overlapping it)',
-               'no call of get_affected_level_tiles raises GridError (known finding C11-sliver: rectangles thinner than 2/10 pixel)',
                'levels sorted, unique, valid (LevelsList.for_grid guarantees it)',
                'nothing cached / refresh_all, work_on_metatiles']
 EXPLANATION = ('resume_covers proved for every tree, crash index and persisted report; real walker interrupted and resumed through '
